@@ -18,6 +18,27 @@ Sigma   annotations = categories x array types {np.ndarray, Duck20, Any, Union,
         in fresh interpreters under PYTHONHASHSEED=1,2,3,4 (the check verifies
         that these seeds really produce different orders).  Every child of the
         first family runs under a pinned seed too (dump 1, load 2).
+        Third family (`outlive`, vf/fixtures/c20_histories.py): the LIFETIME
+        dimension of the same-process routes - for every constructible
+        annotation of the first two families a blob that outlives its
+        annotation: dump, drop every reference, flush typing's Union cache,
+        gc.collect() (weak references say whether it died), build + dump + keep
+        OTHER annotations until one lives at the dead one's address (3..64 of
+        the following specs of the batch), then load the old blob.  Routes:
+        pickle 5 + cloudpickle (quick), all protocols + both cloudpickle
+        modes (thorough).  Not collectable and therefore outside this dimension
+        (measured, see coverage.outlive): annotations used as the array type of
+        another annotation or as a PyTree leaf type (lru_cache keys), array
+        classes; copy / deepcopy return the original itself.
+        Fourth family (`fault`, same file): loads ABORTED at every point -
+        RecursionError at every head-room, KeyboardInterrupt at every call /
+        line (thorough: opcode) event inside jaxtyping, a find_class that
+        refuses at every invocation, raising metaclass hooks of a user array
+        class (__hash__ / __eq__ / __name__, vf/fixtures/c20_hostile.py), a
+        user module whose first import fails (vf/fixtures/c20_flaky.py) - over
+        10 victim annotations x {cold, warm dim-string cache}; after EVERY
+        aborted load ONE witness operation on the same thread (load the blob of
+        a different annotation / build a different annotation / retry).
 Oracle  the *acceptance vector* of an annotation =
         (plain part) outcome (T / F / <ExcType>) of isinstance over 2 array
         classes x 9 dtypes x 10 shapes under three contexts (empty; `a`
@@ -38,6 +59,12 @@ Oracle  the *acceptance vector* of an annotation =
           (3) annotations that were not serialised at all (bystanders held from
               process start, and freshly built ones) keep their vectors
                                                                  [side = bystander]
+          (4) the copy loaded from a blob that outlived its annotation has the
+              vector the annotation has in a fresh interpreter
+                                       [side = copy-of-blob-outliving-original]
+          (5) what the first operation after an aborted load yields has the
+              vector it has in a fresh interpreter (dumper child, pristine)
+                            [side = <load|build|retry>-after-load-aborted-by-<kind>]
         No hand-written expectation anywhere.
 
 Process discipline: pool workers only orchestrate.  Every batch of annotations
@@ -61,6 +88,11 @@ Keys    C20:<route>:<same|xproc>:<class>:<copy|original|bystander>
         route  pickle (protocol in the text and the replay) | cloudpickle |
                cloudpickle-ref | copy | deepcopy | pickle-or-copy (unattributed,
                failure path only)
+        side   also copy-of-blob-outliving-original | copy-after-later-annotations
+               (outlive family; the latter when a cache kept the original alive) and
+               <load|build|retry>-after-load-aborted-by-<recursion|interrupt|
+               find_class|hook|import> (fault family: class = that of the witness
+               annotation, of the victim for retry; route pickle, xproc)
         class  '+'-join of {nested-narrowing | shaped, anon-axis, ellipsis,
                treepath, unordered-category}, or
                plain-{ndarray,duck,anytype,union,nested}; computed from the spec
@@ -114,6 +146,31 @@ DUCK_DTYPES = ["bool", "uint8", "uint16", "int8", "int32", "float16", "float32",
 SHAPES = [(), (1,), (3,), (4,), (2, 3), (3, 3), (3, 4), (2, 3, 3), (3, 3, 3), (3, 3, 3, 3)]
 CONTEXTS = [None, 3, 5]  # empty / a=3 (most shapes match) / a=5 (no shape matches)
 N_PLAIN = len(CONTEXTS) * (len(ND_DTYPES) + len(DUCK_DTYPES)) * len(SHAPES)
+
+# ---- family `outlive`: blobs that outlive the annotation they were made from (same process)
+OUTLIVE_CHURN_MIN = 3  # other annotations built + dumped (and kept alive) between the death of an annotation and the load of its blobs: at least
+OUTLIVE_CHURN_CAP = 64  # ... and at most (stops once one of them lives at the dead annotation's address)
+OUTLIVE_ROUTES_QUICK = ["pickle5", "cloudpickle"]
+OUTLIVE_ROUTES_THOROUGH = [f"pickle{p}" for p in PICKLE_PROTOCOLS] + ["cloudpickle", "cloudpickle-ref"]
+
+# ---- family `fault`: loads aborted at every possible point, then ONE witness operation
+# victims: every axis token "a" is renamed per variant (a fresh name = a cold dim-string cache)
+FAULT_VICTIMS = [
+    ("Shaped", "nd", "a b"),  # flat, dtypes == the category's (any dtype)
+    ("Float", "duck", "_ a"),  # flat, a tuple of dtypes
+    ("Shaped", ("Float32", "nd", "a"), "b"),  # nested: narrowed from any-dtype
+    ("Num", ("Int32", "nd", "a"), "... b"),  # nested: narrowed from a tuple
+    ("Shaped", ("Num", ("Float", "nd", "a"), "b"), "x=3"),  # two levels
+    ("Shaped", ("Float32", "union", "a"), "b"),  # ONE blob holding two narrowed annotations (a Union)
+    ("Inexact", ("SetMix", "nd", "a"), "b"),  # narrowed by a user category
+]
+FAULT_KINDS = ["recursion", "interrupt", "find_class"]
+FAULT_VICTIMS_HOSTILE = [("Shaped", ("Float32", "hostile", "a"), "b")]  # + kind `hook`
+FAULT_VICTIMS_FLAKY = [("FlakyCat", "nd", "a b"), ("Shaped", ("Float32", "union_flaky", "a"), "b")]  # kind `import` only
+FAULT_WITNESS_SPECS_QUICK = [("Shaped", "nd", "r c"), ("Integer", "duck", "_ a")]
+FAULT_WITNESS_SPECS_THOROUGH = FAULT_WITNESS_SPECS_QUICK + [("Real", ("UInt8", "nd", "a"), "b"), ("Float", "union", "... a")]
+FAULT_TEMPS = {"recursion": ["cold", "warm"], "interrupt": ["cold", "warm"], "hook": ["cold", "warm"], "find_class": ["cold"], "import": ["cold"]}
+FAULT_PROTOCOL = PICKLE_PROTOCOLS[-1]
 
 CANARY = [
     ("Float", "nd", "_ a"),
@@ -212,9 +269,32 @@ def _tup(spec):
     return (c, _tup(t) if isinstance(t, (list, tuple)) else t, d)
 
 
+def variant_spec(spec, n: int):
+    """The victim with every axis token `a` renamed to `a<n>` (all levels)."""
+    c, t, d = spec
+    d2 = " ".join(f"a{n}" if tok == "a" else tok for tok in d.split())
+    return (c, variant_spec(t, n) if isinstance(t, (list, tuple)) else t, d2)
+
+
+def fault_plan(tier: str) -> list:
+    """[(victim spec, fault kinds)] - the complete victim alphabet of the fault family."""
+    return (
+        [(v, list(FAULT_KINDS)) for v in FAULT_VICTIMS]
+        + [(v, list(FAULT_KINDS) + ["hook"]) for v in FAULT_VICTIMS_HOSTILE]
+        + [(v, ["import"]) for v in FAULT_VICTIMS_FLAKY]
+    )
+
+
+def fault_witnesses(tier: str) -> list:
+    """[(op, spec | None)]: what runs FIRST after an aborted load."""
+    ws = FAULT_WITNESS_SPECS_THOROUGH if tier == "thorough" else FAULT_WITNESS_SPECS_QUICK
+    return [(op, w) for w in ws for op in ("load", "build")] + [("retry", None)]
+
+
 def render(spec) -> str:
     c, t, d = spec
-    names = {"nd": "ndarray", "duck": "Duck20", "any": "Any", "union": "Union[ndarray,Duck20]"}
+    names = {"nd": "ndarray", "duck": "Duck20", "any": "Any", "union": "Union[ndarray,Duck20]", "hostile": "HostileArr",
+             "union_flaky": "Union[ndarray,FlakyDuck]"}  # fmt: skip
     ts = render(t) if isinstance(t, (list, tuple)) else names[t]
     return f"{c}[{ts},{d!r}]"
 
@@ -367,15 +447,20 @@ def _category(name):
     rt = _rt()
     if name in USER_CATS:
         return getattr(rt["fx"], name)
+    if name == "FlakyCat":
+        from vf.fixtures import c20_flaky
+
+        return c20_flaky.FlakyCat
     return getattr(rt["jaxtyping"], name)
 
 
-def build(spec):
-    """The real annotation for a spec; ValueError if jaxtyping refuses it."""
+def build(spec, on_level=None):
+    """The real annotation for a spec; ValueError if jaxtyping refuses it.
+    `on_level(annotation)` is called for the annotation of every nesting level, innermost first."""
     rt = _rt()
     c, t, d = spec
     if isinstance(t, (list, tuple)):
-        at = build(t)
+        at = build(t, on_level)
     elif t == "nd":
         at = rt["np"].ndarray
     elif t == "duck":
@@ -384,9 +469,20 @@ def build(spec):
         at = rt["typing"].Any
     elif t == "union":
         at = rt["typing"].Union[rt["np"].ndarray, rt["fx"].Duck20]
+    elif t == "hostile":  # fault family only
+        from vf.fixtures import c20_hostile
+
+        at = c20_hostile.HostileArr
+    elif t == "union_flaky":  # fault family only
+        from vf.fixtures import c20_flaky
+
+        at = rt["typing"].Union[rt["np"].ndarray, c20_flaky.FlakyDuck]
     else:
         raise HarnessError(f"bad array type in spec: {t!r}")
-    return _category(c)[at, d]
+    out = _category(c)[at, d]
+    if on_level is not None:
+        on_level(out)
+    return out
 
 
 def members(ann):
@@ -756,7 +852,17 @@ def _child_load(task):
     return dict(items=items, fingerprint_end=can.full())
 
 
-_MODES = dict(fingerprint=_child_fingerprint, same=_child_same, cp_same=_child_cp_same, load=_child_load, blame=_child_blame)
+def _hist(name):
+    def call(task):
+        from vf.fixtures import c20_histories
+
+        return getattr(c20_histories, name)(task)
+
+    return call
+
+
+_MODES = dict(fingerprint=_child_fingerprint, same=_child_same, cp_same=_child_cp_same, load=_child_load, blame=_child_blame,
+              outlive=_hist("child_outlive"), dump=_hist("child_dump"), fault=_hist("child_fault"))  # fmt: skip
 _MARK = "@@C20-RESULT@@"
 
 
@@ -865,7 +971,7 @@ def classify(spec) -> str:
         feats.append("unordered-category")
     if feats:
         return "+".join(feats)
-    return "plain-" + ("nested" if depth(spec) else {"nd": "ndarray", "duck": "duck", "any": "anytype", "union": "union"}[spec[1]])
+    return "plain-" + ("nested" if depth(spec) else {"nd": "ndarray", "duck": "duck", "any": "anytype", "union": "union"}.get(spec[1], "other"))
 
 
 def symptom(ref: list, got: list) -> str:
@@ -922,6 +1028,8 @@ def _job(job):
     """Pool worker: orchestrates the children of one batch (same-process pickle/copy;
     one loader per load seed; same-process cloudpickle; one cloudpickle loader per load
     seed) and compares."""
+    if job.get("family") == 2:
+        return _fault_job(job)
     fp = job["fingerprint"]
     dump_seed, load_seeds = job.get("dump_seed", DUMP_SEED), job.get("load_seeds", LOAD_SEEDS)
     want_orders = bool(job.get("orders"))
@@ -932,6 +1040,9 @@ def _job(job):
         identical_copies=0, probes=0, tree_probes=0, children=0, blame_children=0, unattributed_original_changes=0,
         tree_plan_0=0, tree_plan_1=0, tree_plan_2=0, tree_nontrivial_annotations=0, treepath_annotations=0,
         treepath_annotations_accepting_unequal_leaves=0, by_reference_not_applicable=0, by_reference_applicable=0,
+        outlive_annotations=0, outlive_loads=0, outlive_originals_collected=0, outlive_addresses_reused=0,
+        outlive_other_annotations_built_in_between=0, outlive_collected_by_array_type={}, outlive_not_collected_by_array_type={},
+        outlive_by_reference_not_applicable=0,
     )  # fmt: skip
     vectors_seen = set()
     samples = []
@@ -1150,6 +1261,18 @@ def _job(job):
             viols.append(_mk_violation(last, "cloudpickle", "xproc", "bystander", "differs",
                                        "canary annotations changed their acceptance while loading this batch of cloudpickle blobs", batch=prefix(None), seeds=sd))  # fmt: skip
 
+    # ---- child O: blobs that OUTLIVE their annotation (same process; see vf/fixtures/c20_histories.py)
+    if good:
+        o_routes = OUTLIVE_ROUTES_THOROUGH if job.get("tier") == "thorough" else OUTLIVE_ROUTES_QUICK
+        o_specs = [(i, _listify(spec)) for i, spec, _ in good]
+        o_out = run_child(dict(mode="outlive", fingerprint=fp, specs=o_specs, routes=o_routes, churn_min=OUTLIVE_CHURN_MIN, churn_cap=OUTLIVE_CHURN_CAP), dump_seed)
+        stats["children"] += 1
+        _judge_outlive(o_out, fp, by_idx, v0, nts, o_specs, o_routes, stats, viols)
+
+    return _job_result(job, stats, viols, vectors_seen, samples, per_class, orders)
+
+
+def _job_result(job, stats, viols, vectors_seen=(), samples=(), per_class=None, orders=None, first=None):
     # keep the three smallest instances per key, count all
     counts = {}
     for v in viols:
@@ -1160,8 +1283,199 @@ def _job(job):
         if n.get(v["key"], 0) < 3:
             n[v["key"]] = n.get(v["key"], 0) + 1
             kept.append(v)
-    return dict(stats=stats, viols=kept, counts=counts, vectors=sorted(vectors_seen), samples=samples, per_class=per_class,
-                first=(job.get("family", 0), min(i for i, _ in job["specs"])), orders=orders)  # fmt: skip
+    if first is None:
+        first = (job.get("family", 0), min(i for i, _ in job["specs"]))
+    return dict(stats=stats, viols=kept, counts=counts, vectors=sorted(vectors_seen), samples=list(samples), per_class=per_class or {},
+                first=first, orders=orders or {})  # fmt: skip
+
+
+def _viol(key_spec, route, proc, side, what, replay, size):
+    rname = "pickle" if (route.startswith("pickle") and route != "pickle-or-copy") else route
+    return dict(key=f"C20:{rname}:{proc}:{classify(key_spec)}:{side}", what=what, replay=replay, size=size)
+
+
+def _judge_outlive(o_out, fp, by_idx, v0, nts, o_specs, o_routes, stats, viols):
+    """Compare what the outlive child measured with the fresh-interpreter vectors of the batch."""
+    rep0 = dict(family="outlive", routes=list(o_routes), churn_min=OUTLIVE_CHURN_MIN, churn_cap=OUTLIVE_CHURN_CAP)
+    all_specs = [sp for _, sp in o_specs]
+    if len(o_out["items"]) != len(o_specs):
+        raise HarnessError("outlive child lost items")
+
+    def judge(spec, pos, route, side, ref, got, pre, nt, labels_fn, fail_sym="load-error"):
+        """got: an encoded vector, or '<ExcType: msg>' when the operation itself failed."""
+        stats["evaluations"] += 1
+        stats["probes"] += len(ref)
+        stats["nontrivial_cases"] += bool(nt)
+        failed = got.startswith("<") and ": " in got.split(">", 1)[0]
+        if failed:
+            sym, txt = fail_sym, got
+        else:
+            got_l = dec(got)
+            if got_l == ref:
+                return
+            sym, txt = symptom(ref, got_l), _diff_text(ref, got_l, labels_fn())
+        rname = "pickle" if (route.startswith("pickle") and route != "pickle-or-copy") else route
+        proto = f" protocol {route[6:]}" if rname == "pickle" else ""
+        viols.append(_viol(spec, route, "same", side, f"{rname}{proto}, same process: {pre} {render(spec)} [{sym}]: {txt}",
+                           dict(rep0, spec=_listify(spec), batch=batch_from(pos), route=route, side=side), spec_size(spec)))  # fmt: skip
+
+    def batch_from(pos):
+        """The annotation and the ones that follow it in the batch (cyclically): what its history is made of."""
+        return (all_specs[pos:] + all_specs[:pos])[: OUTLIVE_CHURN_CAP + 1]
+
+    for pos, it in enumerate(o_out["items"]):
+        spec, ref, nt = by_idx[it["i"]], v0[it["i"]], nts[it["i"]]
+        kind = base_type(spec)
+        stats["outlive_annotations"] += 1
+        bucket = "outlive_collected_by_array_type" if it["collected"] else "outlive_not_collected_by_array_type"
+        stats[bucket][kind] = stats[bucket].get(kind, 0) + 1
+        stats["outlive_originals_collected"] += bool(it["collected"])
+        stats["outlive_addresses_reused"] += bool(it["address_reused"])
+        stats["outlive_other_annotations_built_in_between"] += it["churn"]
+        stats["outlive_by_reference_not_applicable"] += len(it["na"])
+        how = (
+            ("its annotation had been dropped and garbage-collected" if it["collected"] else "every reference of the test to its annotation had been dropped (a cache keeps it alive)")
+            + f" and {it['churn']} other annotations had been built and dumped in between"
+            + (", one of them allocated at the address of the dead one" if it["address_reused"] else "")
+        )
+        side = "copy-of-blob-outliving-original" if it["collected"] else "copy-after-later-annotations"
+        plain_ref = ref[:N_PLAIN]
+        judge(spec, pos, "pickle-or-copy", "bystander", plain_ref, it["p0"],
+              "an annotation BUILT between the loads of outlived blobs differs from the same annotation in a fresh interpreter:", nt, probe_labels)  # fmt: skip
+        judge(spec, pos, "pickle-or-copy", "original", plain_ref, it["p1"], "the original changed while it was dumped:", nt, probe_labels)
+        for route, err in it["dump_errors"].items():
+            judge(spec, pos, route, "copy", ref, err, "could not be serialised:", nt, None, "dump-error")
+        for route, r in it["routes"].items():
+            stats["outlive_loads"] += 1
+            stats["tree_probes"] += len(ref) - N_PLAIN
+            if r.get("load"):
+                judge(spec, pos, route, side, ref, r["load"], f"the blob, loaded after {how}, could not be loaded:", nt, None)
+            else:
+                extra = " (the load returned a LIVE annotation that was made later from another spec)" if r.get("is_a_live_later_annotation") else ""
+                judge(spec, pos, route, side, ref, r["copy"], f"the blob, loaded after {how}, came back differently{extra}:", nt, lambda ref=ref: labels_for(ref))
+        if not it["mini_ok"]:
+            viols.append(_viol(spec, "pickle-or-copy", "same", "bystander", f"an annotation that was not serialised changed its acceptance after the outlived blobs of {render(spec)} were loaded",
+                               dict(rep0, spec=_listify(spec), batch=all_specs[: pos + 1] + all_specs[pos + 1 :][: OUTLIVE_CHURN_CAP], upto=pos, route="pickle-or-copy", side="bystander-canary"), spec_size(spec) + 10**6))  # fmt: skip
+    if o_out["fingerprint_end"] != fp and o_specs:
+        spec = by_idx[o_specs[-1][0]]
+        viols.append(_viol(spec, "pickle-or-copy", "same", "bystander", "canary annotations changed their acceptance during this batch of loads of outlived blobs",
+                           dict(rep0, spec=_listify(spec), batch=all_specs, upto=len(all_specs) - 1, route="pickle-or-copy", side="bystander-canary"), spec_size(spec) + 10**6))  # fmt: skip
+
+
+# ------------------------------------------------------------------ fault family
+
+
+def _fault_tasks(victim, kinds, tier, only=None):
+    """-> (specs for the dumper child, builder of the fault task from the dumper's output).
+    Variants of the victim: 0 = the warm one, 1 = the one that is only ever loaded cleanly,
+    2.. = one per cold scan."""
+    witnesses = fault_witnesses(tier)
+    scans = []
+    nvar = 2
+    for kind in kinds:
+        for temp in FAULT_TEMPS[kind]:
+            for wi in range(len(witnesses)):
+                if temp == "cold":
+                    scans.append(dict(kind=kind, temp=temp, witness=wi, variant=nvar))
+                    nvar += 1
+                else:
+                    scans.append(dict(kind=kind, temp=temp, witness=wi, variant=0))
+    if only is not None:
+        scans = [dict(sc, variant=2 if sc["temp"] == "cold" else 0) for sc in scans
+                 if (sc["kind"], sc["temp"], sc["witness"]) == (only["kind"], only["temp"], only["witness"])]  # fmt: skip
+        nvar = 3
+    wspecs = []
+    for _, w in witnesses:
+        if w is not None and w not in wspecs:
+            wspecs.append(w)
+    dump_specs = [_listify(variant_spec(victim, n)) for n in range(nvar)] + [_listify(w) for w in wspecs]
+    return witnesses, wspecs, scans, nvar, dump_specs
+
+
+def _fault_run(victim, kinds, tier, fp, only=None, point=None):
+    """Dumper child + fault child for one victim.  -> (fault child's output, witnesses, scans, refs)"""
+    witnesses, wspecs, scans, nvar, dump_specs = _fault_tasks(victim, kinds, tier, only)
+    d = run_child(dict(mode="dump", fingerprint=fp, specs=dump_specs, protocol=FAULT_PROTOCOL), DUMP_SEED)
+    if d["fingerprint_end"] != fp:
+        raise HarnessError("dumper child of the fault family ended with a changed canary (the main families report that)")
+    items = d["items"]
+    vict = [dict(variant=n, spec=items[n]["spec"], blob=items[n]["blob"], ref=items[n]["ref"]) for n in range(nvar)]
+    wref = {tuple(map(str, _flat(w))): items[nvar + k] for k, w in enumerate(wspecs)}
+    wit = []
+    for op, w in witnesses:
+        if w is None:
+            wit.append(dict(op=op, spec=None, ref=None))
+        else:
+            x = wref[tuple(map(str, _flat(w)))]
+            wit.append(dict(op=op, spec=_listify(w), ref=x["ref"], **({"blob": x["blob"]} if op == "load" else {})))
+    task = dict(mode="fault", fingerprint=fp, gran="opcode" if tier == "thorough" else "line", victims=vict, witnesses=wit, scans=scans, check_variant=1)
+    if point is not None:
+        task["only"] = point
+    return run_child(task, LOAD_SEEDS[0]), witnesses, scans, vict, wit
+
+
+def _flat(spec):
+    c, t, d = spec
+    return [c] + (_flat(t) if isinstance(t, (list, tuple)) else [t]) + [d]
+
+
+def _fault_job(job):
+    fp, tier = job["fingerprint"], job["tier"]
+    victim, kinds = _tup(job["victim"]), list(job["kinds"])
+    stats = dict(evaluations=0, nontrivial_cases=0, probes=0, tree_probes=0, children=2, fault_victims=1, fault_scans=0, fault_scans_skipped=0,
+                 fault_aborted_loads=0, fault_swallowed=0, fault_completed_loads_in_scans=0, fault_points_by_kind={}, fault_max_points_per_scan={})  # fmt: skip
+    viols = []
+    out, witnesses, scans, vict, wit = _fault_run(victim, kinds, tier, fp)
+    for sc, res in zip(scans, out["scans"]):
+        if (res["kind"], res["temp"], res["witness"], res["variant"]) != (sc["kind"], sc["temp"], sc["witness"], sc["variant"]):
+            raise HarnessError("fault child answered another scan")
+        if res["skipped"]:
+            stats["fault_scans_skipped"] += 1
+            continue
+        op, wspec = witnesses[sc["witness"]]
+        target = variant_spec(victim, sc["variant"]) if wspec is None else wspec
+        ref = dec(vict[sc["variant"]]["ref"] if wspec is None else wit[sc["witness"]]["ref"])
+        nt = ("T" in ref) and any(x != "T" for x in ref)
+        k = f"{sc['kind']}/{sc['temp']}"
+        stats["fault_scans"] += 1
+        stats["fault_aborted_loads"] += res["aborted"]
+        stats["fault_swallowed"] += res["swallowed"]
+        stats["fault_completed_loads_in_scans"] += res["completed"]
+        stats["fault_points_by_kind"][k] = stats["fault_points_by_kind"].get(k, 0) + res["points"]
+        stats["fault_max_points_per_scan"][k] = max(stats["fault_max_points_per_scan"].get(k, 0), res["points"])
+        stats["evaluations"] += res["points"]
+        stats["nontrivial_cases"] += res["points"] if nt else 0
+        stats["probes"] += res["points"] * len(ref)
+        stats["tree_probes"] += res["points"] * (len(ref) - N_PLAIN)
+        if sc["kind"] != "recursion" and sc["kind"] != "import" and res["points"] == 0:
+            raise HarnessError(f"fault scan {k} of {render(victim)} has no point at all: the injection never fired")
+        for bad in res["bad"]:
+            viols.append(_fault_violation(victim, kinds, tier, sc, op, wspec, target, ref, bad, res["n_bad"]))
+        if not res.get("mini_ok", True):
+            viols.append(_viol(target, "pickle", "xproc", "bystander", f"an annotation that was never serialised changed its acceptance during the scan {k} of aborted loads of {render(victim)}",
+                               dict(family="fault", spec=_listify(victim), kinds=kinds, tier=tier, scan=sc, side="bystander-canary"), spec_size(victim) + 10**6))  # fmt: skip
+    if out["fingerprint_end"] != fp:
+        viols.append(_viol(victim, "pickle", "xproc", "bystander", f"canary annotations changed their acceptance during the aborted loads of {render(victim)}",
+                           dict(family="fault", spec=_listify(victim), kinds=kinds, tier=tier, scan=None, side="bystander-canary"), spec_size(victim) + 10**6))  # fmt: skip
+    return _job_result(job, stats, viols, first=(2, job["index"]))
+
+
+def _fault_violation(victim, kinds, tier, sc, op, wspec, target, ref, bad, n_bad):
+    got = bad["got"]
+    if got.startswith("<" + op + ":"):
+        sym, txt = "load-error", f"raised {got}"
+    else:
+        g = dec(got)
+        sym, txt = symptom(ref, g), _diff_text(ref, g, labels_for(ref))
+    does = {"load": f"loading the blob of {render(target)}", "build": f"building {render(target)}", "retry": f"loading {render(target)} again"}[op]
+    unit = {"recursion": "frames of head-room", "interrupt": "-th call/line event in jaxtyping" if tier != "thorough" else "-th call/opcode event in jaxtyping",
+            "find_class": "-th find_class call", "hook": "-th metaclass hook of the array class", "import": "st import of the defining module"}[sc["kind"]]  # fmt: skip
+    side = f"{op}-after-load-aborted-by-{sc['kind']}"
+    what = (f"pickle protocol {FAULT_PROTOCOL}, fresh interpreter: a load of {render(variant_spec(victim, sc['variant']))} was aborted ({sc['kind']}, point {bad['point']}{unit if unit[0] == '-' else ' ' + unit}, "
+            f"dim-string cache {sc['temp']}, outcome {bad['outcome']}); {does} as the next operation on the thread gives an annotation that differs from the one a fresh interpreter gives "
+            f"[{sym}] ({n_bad} point(s) of this scan): {txt}")  # fmt: skip
+    return _viol(target, "pickle", "xproc", side, what,
+                 dict(family="fault", spec=_listify(victim), kinds=kinds, tier=tier, scan=sc, point=bad["point"], side=side), spec_size(target) + bad["point"])  # fmt: skip
 
 
 # ------------------------------------------------------------------------- run
@@ -1181,15 +1495,22 @@ def run(ctx):
         raise HarnessError("pristine fingerprint differs between two fresh interpreters (PYTHONHASHSEED 1 and 2)")
     n_hbatches = 3 if ctx.quick else common.NCPU
     # jobs of both families together fill the workers a whole number of times
-    n_batches = max(1, common.NCPU * (2 if ctx.quick else 6) - n_hbatches)
+    n_batches = max(1, common.NCPU * (2 if ctx.quick else 6) - n_hbatches - (len(fault_plan(ctx.tier)) if ctx.thorough else 0))
     jobs = []
     # the batches of the second family start first: they run 10 children each
     for idx in common.shards(len(hspecs), n_hbatches, ctx.seed):
         jobs.append(dict(specs=[(i, hspecs[i]) for i in idx], fingerprint=fp, sample_depth=idx[0] % 3, family=1,
-                         dump_seed=DUMP_SEED, load_seeds=HASH_LOAD_SEEDS, orders=True))  # fmt: skip
+                         dump_seed=DUMP_SEED, load_seeds=HASH_LOAD_SEEDS, orders=True, tier=ctx.tier))  # fmt: skip
+    # fault family: one job per victim (thorough: long ones, they start early; quick: short ones, they fill the gaps at the end)
+    fplan = fault_plan(ctx.tier)
+    fjobs = [dict(family=2, index=k, victim=_listify(victim), kinds=kinds, tier=ctx.tier, fingerprint=fp) for k, (victim, kinds) in enumerate(fplan)]
+    if ctx.thorough:
+        jobs.extend(fjobs)
     for k, idx in enumerate(common.shards(len(specs), n_batches, ctx.seed)):
         # idx[0] identifies the shard independently of the seed's rotation
-        jobs.append(dict(specs=[(i, specs[i]) for i in idx], fingerprint=fp, sample_depth=idx[0] % 3, family=0))
+        jobs.append(dict(specs=[(i, specs[i]) for i in idx], fingerprint=fp, sample_depth=idx[0] % 3, family=0, tier=ctx.tier))
+    if not ctx.thorough:
+        jobs.extend(fjobs)
     outs = common.pmap(_job, jobs)
     stats = common.merge_counts(o["stats"] for o in outs)
     hstats = common.merge_counts(o["stats"] for o in outs if o["first"][0] == 1)
@@ -1257,8 +1578,42 @@ def run(ctx):
         cloudpickle_by_reference=dict(applicable=stats["by_reference_applicable"], not_applicable_name_not_resolvable=stats["by_reference_not_applicable"]),
         copies_identical_to_original=stats["identical_copies"],
         annotations_per_class=per_class,
-        fresh_interpreters=stats["children"] + stats["blame_children"] + 2,
+        fresh_interpreters=stats["children"] + stats.get("blame_children", 0) + 2,
         unattributed_original_changes=stats["unattributed_original_changes"],
+        outlive=dict(
+            what="blobs that OUTLIVE their annotation, same process, one history per annotation: built, measured, dumped, every reference dropped, typing's Union cache "
+            f"flushed (130 other subscriptions), gc.collect(); then other annotations (the following specs of the batch, every nesting level of them) are built, dumped "
+            f"and kept alive until one of them lives at the dead annotation's address (at least {OUTLIVE_CHURN_MIN}, at most {OUTLIVE_CHURN_CAP}); only then are the old blobs "
+            "loaded and must give the fresh-interpreter vector of their annotation",
+            routes=OUTLIVE_ROUTES_THOROUGH if ctx.thorough else OUTLIVE_ROUTES_QUICK,
+            annotations=stats["outlive_annotations"],
+            loads_of_outlived_blobs=stats["outlive_loads"],
+            originals_really_collected=stats["outlive_originals_collected"],
+            originals_collected_by_base_array_type=dict(sorted(stats["outlive_collected_by_array_type"].items())),
+            originals_kept_alive_by_a_cache_by_base_array_type=dict(sorted(stats["outlive_not_collected_by_array_type"].items())),
+            collected_originals_whose_address_was_reused_by_a_live_later_annotation_this_run=stats["outlive_addresses_reused"],
+            other_annotations_built_and_dumped_in_between_this_run=stats["outlive_other_annotations_built_in_between"],
+            cloudpickle_by_reference_not_applicable=stats["outlive_by_reference_not_applicable"],
+            note="collectable: the class made by a subscription (flat, and the OUTER class of a nested annotation; Union members once typing's cache has "
+            "been flushed). NOT collectable, hence outside the lifetime dimension: an annotation used as the array type of another one (key of "
+            "_make_array_cached's lru_cache), as the leaf type of a PyTree (lru_cache of PyTree[...]) - which is why the vector BEFORE the drop is the plain part "
+            "only - and array classes themselves (same lru_cache). copy / deepcopy return the original object and cannot outlive it",
+        ),
+        fault=dict(
+            what="pickle.loads ABORTED at every point, then one witness operation (load another blob / build another annotation / retry) as the next "
+            "operation on the thread, compared with the fresh-interpreter vector",
+            victims=[render(v) for v, _ in fplan],
+            kinds={render(v): k for v, k in fplan},
+            witnesses=[f"{op} {render(w)}" if w else op for op, w in fault_witnesses(ctx.tier)],
+            granularity_of_interrupts="call + opcode events in jaxtyping frames" if ctx.thorough else "call + line events in jaxtyping frames",
+            scans=stats["fault_scans"],
+            scans_skipped=stats["fault_scans_skipped"],
+            aborted_loads=stats["fault_aborted_loads"],
+            loads_completed_within_scans=stats["fault_completed_loads_in_scans"],
+            injected_but_load_completed=stats["fault_swallowed"],
+            points_by_kind_and_cache_state=dict(sorted(stats["fault_points_by_kind"].items())),
+            protocol=FAULT_PROTOCOL,
+        ),
         violation_instances_by_key=counts,
         bounds=f"{len(CATS)} categories x {{ndarray,Duck20,Any,Union}} x {len(DIMS)} dim strings (incl. '?a', '*?v 3'); nested 1 level: 16 outer x "
         + (f"{len(CATS)} inner categories x {len(DIMS_NO_TP)} x {len(INNER_DIMS_NO_TP)} dim strings over 4 base types + every (outer, inner) dims pair with a '?' axis "
@@ -1269,6 +1624,10 @@ def run(ctx):
         + (f"({len(DIMS_NO_TP)} x 2 x {len(INNER_DIMS_NO_TP)} + {len(DIMS) * len(INNER_DIMS) - len(DIMS_NO_TP) * len(INNER_DIMS_NO_TP)} '?' pairs) dims" if ctx.thorough else f"({len(OUTER_DIMS_CHAIN_QUICK)} x {len(INNER_DIMS_NO_TP)} + {len(CHAIN_TP_QUICK)} '?' pairs) dims")
         + f"; unordered-category family: {{SetMix,SetRe}} flat, nested 1 level (both directions, {len(CATS) if ctx.thorough else len(HASH_PARTNERS_QUICK)} partner categories + each other), "
         f"2-level chains with {'>= 1' if ctx.thorough else 'exactly 1'} of them among {len(HASH_CHAIN_THOROUGH if ctx.thorough else HASH_CHAIN_QUICK)} others, dumped under PYTHONHASHSEED={DUMP_SEED}, loaded under {HASH_LOAD_SEEDS}"
+        f"; outlived blobs: every constructible annotation x {len(OUTLIVE_ROUTES_THOROUGH if ctx.thorough else OUTLIVE_ROUTES_QUICK)} routes "
+        f"({', '.join(OUTLIVE_ROUTES_THOROUGH if ctx.thorough else OUTLIVE_ROUTES_QUICK)}), {OUTLIVE_CHURN_MIN}..{OUTLIVE_CHURN_CAP} other annotations built and dumped between the death of the annotation and the load"
+        f"; aborted loads: {len(fplan)} victims x {{RecursionError at every head-room, KeyboardInterrupt at every call/{'opcode' if ctx.thorough else 'line'} event in jaxtyping, "
+        f"find_class refusing at every invocation, hostile metaclass hooks of the array class, failing first import}} x {{cold, warm}} dim-string cache x {len(fault_witnesses(ctx.tier))} witness operations"
         f"; probes: 2 array classes x 9 dtypes x {len(SHAPES)} shapes x 3 contexts + two-leaf trees (equal / unequal in one axis, every axis / mixed rank) as PyTree[annotation,'T'] leaves",
     )  # fmt: skip
     return Result(
@@ -1283,6 +1642,11 @@ def run(ctx):
             "two vectors with equal plain parts therefore have comparable tree parts, and unequal plain parts are a violation already",
             "cloudpickle 'by reference' = the annotation class is bound as <module>.<qualname> during the dump (names containing '.' cannot be resolved by cloudpickle and are counted as not applicable)",
             "every interpreter runs under a pinned PYTHONHASHSEED, so the run is reproducible",
+            "outlived blobs: whether a freed annotation's address is handed to a later annotation is up to the allocator; the run MEASURES how often it happened "
+            "(coverage.outlive) - the only count in the evidence that may differ between two runs",
+            "aborted loads: an asynchronous exception is modelled by KeyboardInterrupt raised from the trace hook at call / line (thorough: opcode) boundaries of frames "
+            "whose code lives in the jaxtyping package; RecursionError by lowering the recursion limit to the current depth + h; a load that completes although the "
+            "fault fired is not judged itself (only what follows it)",
         ],
         notes=[f"pristine fingerprint {fp}"],
     )
@@ -1293,6 +1657,10 @@ def run(ctx):
 
 def replay(rep):
     """Re-execute one recorded case in fresh interpreters, without the explorer."""
+    if rep.get("family") == "outlive":
+        return _replay_outlive(rep)
+    if rep.get("family") == "fault":
+        return _replay_fault(rep)
     spec = _tup(rep["spec"])
     route, proc, side = rep["route"], rep["proc"], rep["side"]
     dump_seed, load_seed = rep.get("seeds") or (DUMP_SEED, LOAD_SEEDS[0])
@@ -1357,4 +1725,76 @@ def replay(rep):
         out["violates"] = True
         out["symptom"] = symptom(ref, got)
         out["details"].append(_diff_text(ref, got, labels_for(ref)))
+    return out
+
+
+def _replay_outlive(rep):
+    """The recorded annotation's lifetime history in one fresh interpreter: the annotation
+    first, then the annotations that followed it in its batch (they are what is built in
+    between); for a canary observation the recorded prefix of the batch."""
+    spec, route, side = _tup(rep["spec"]), rep["route"], rep["side"]
+    fp = run_child(dict(mode="fingerprint"), DUMP_SEED)["fingerprint"]
+    ref_s = run_child(dict(mode="dump", fingerprint=fp, specs=[_listify(spec)], protocol=FAULT_PROTOCOL), DUMP_SEED)["items"][0]["ref"]
+    ref = dec(ref_s)
+    only = list(range(rep["upto"] + 1)) if side == "bystander-canary" else [0]
+    o = run_child(dict(mode="outlive", fingerprint=fp, specs=list(enumerate(rep["batch"])), routes=rep["routes"], churn_min=rep["churn_min"],
+                       churn_cap=rep["churn_cap"], only_pos=only), DUMP_SEED)  # fmt: skip
+    it = o["items"][-1]
+    out = dict(annotation=render(spec), family="outlive", route=route, side=side, violates=False, details=[], original_collected=it["collected"],
+               address_reused_by_a_later_annotation=it["address_reused"], other_annotations_built_in_between=it["churn"])  # fmt: skip
+
+    def cmp(r, got, labels):
+        if got.startswith("<") and ": " in got.split(">", 1)[0]:
+            out["violates"] = True
+            out["details"].append(got)
+        elif dec(got) != r:
+            out["violates"] = True
+            out["symptom"] = symptom(r, dec(got))
+            out["details"].append(_diff_text(r, dec(got), labels))
+
+    if side == "bystander-canary":
+        out["violates"] = o["fingerprint_end"] != fp or not all(x["mini_ok"] for x in o["items"])
+    elif side == "bystander":
+        cmp(ref[:N_PLAIN], it["p0"], probe_labels())
+    elif side == "original":
+        cmp(ref[:N_PLAIN], it["p1"], probe_labels())
+    elif side == "copy":
+        if route in it["dump_errors"]:
+            out["violates"] = True
+            out["details"].append(it["dump_errors"][route])
+    else:
+        r = it["routes"].get(route)
+        if r is None:
+            out["details"].append("route not applicable / not dumped")
+        else:
+            cmp(ref, r.get("load") or r["copy"], labels_for(ref))
+            out["loaded_object_is_a_live_later_annotation"] = r.get("is_a_live_later_annotation")
+    return out
+
+
+def _replay_fault(rep):
+    """One aborted load + its witness in a fresh interpreter; if that alone does not show it,
+    the recorded scan (all its points, in order) is re-run."""
+    victim, kinds, tier, sc, side = _tup(rep["spec"]), rep["kinds"], rep["tier"], rep.get("scan"), rep["side"]
+    fp = run_child(dict(mode="fingerprint"), DUMP_SEED)["fingerprint"]
+    out = dict(victim=render(victim), family="fault", side=side, scan=sc, point=rep.get("point"), violates=False, details=[])
+    if side == "bystander-canary":
+        res = _fault_job(dict(family=2, index=0, victim=_listify(victim), kinds=kinds, tier=tier, fingerprint=fp))
+        bad = [v for v in res["viols"] if v["key"].endswith(":bystander")]
+        out["violates"] = bool(bad)
+        out["details"] = [v["what"] for v in bad[:3]]
+        return out
+    only = dict(kind=sc["kind"], temp=sc["temp"], witness=sc["witness"])
+    for point in (rep["point"], None):
+        o, witnesses, scans, vict, wit = _fault_run(victim, kinds, tier, fp, only=only, point=point)
+        res = o["scans"][0]
+        out["details"].append(dict(mode="single point" if point is not None else "whole scan", points=res["points"], skipped=res["skipped"],
+                                   differing_points=res["n_bad"], first=[dict(point=b["point"], outcome=b["outcome"]) for b in res["bad"]]))  # fmt: skip
+        if res["n_bad"]:
+            op, wspec = witnesses[sc["witness"]]
+            ref = dec(vict[scans[0]["variant"]]["ref"] if wspec is None else wit[sc["witness"]]["ref"])
+            got = res["bad"][0]["got"]
+            out["violates"] = True
+            out["details"].append(got if got.startswith("<" + op + ":") else _diff_text(ref, dec(got), labels_for(ref)))
+            break
     return out
